@@ -44,7 +44,9 @@ def oracle(ctx, case, io):
         hs = have.setdefault(repo, set())
         hist = lambda: oracles.hist(case, k, res)
         if kind == "snapshot":
-            files = {f["path"]: (f["dir"], f["size"], f.get("sha")) for f in res.get("files") or []}
+            # (the temporary directory of the process lies next to the root in these cases: anything created or removed in it
+            #  - even for a moment - changes its modification time)
+            files = {f["path"]: (f["dir"], f["size"], f.get("sha"), f.get("mtime") if f["path"].startswith("tmpdir") else None) for f in res.get("files") or []}
             if prev_snap is not None and prev_step is not None:
                 changed = [p for p in set(files) | set(prev_snap) if files.get(p) != prev_snap.get(p)]
                 r = prev_step.get("repo")
@@ -159,6 +161,8 @@ def make_cases(ctx, first):
         w = gen.World(rng, conf, repos=repos, profile=PROFILE)
         seed, secret = outside_seed()
         snap = store == "dir" and i % 2 == 0
+        if snap:
+            conf["tmpincase"] = True
         target = steps
         while len(w.steps) < target:
             before = len(w.steps)
